@@ -794,6 +794,38 @@ theorem initiate_ok (g : Bytes) (v : Nat) (s : Shake) (hg : s.genesis = g) :
     initiateDecision g v false s = .ok (min v s.version) := by
   simp [initiateDecision, hg, negotiate]
 
+
+/-- **the refusal reasons of `Handshake::accept` are complete and ordered**: for EVERY Hand (any announced
+version, 0 and 2^32 - 1 included), every nonce ring, every deny verdict - genesis first, then the own nonce,
+then the deny / allow lists, and otherwise the lower of the two versions; there is no other outcome -/
+theorem accept_decision_complete (g : Bytes) (v : Nat) (nonces : List Nat) (denied : Bool) (h : Hand) :
+    acceptDecision g v nonces denied h =
+      if h.genesis ≠ g then .error .genesisMismatch
+      else if nonces.contains h.nonce then .error .peerWithSelf
+      else if denied then .error .connectionClose
+      else .ok (min v h.version) := by
+  simp only [acceptDecision, negotiate]
+
+/-- … and of `Handshake::initiate` (the self-connection is the acceptor's to detect) -/
+theorem initiate_decision_complete (g : Bytes) (v : Nat) (denied : Bool) (s : Shake) :
+    initiateDecision g v denied s =
+      if s.genesis ≠ g then .error .genesisMismatch
+      else if denied then .error .connectionClose
+      else .ok (min v s.version) := by
+  simp only [initiateDecision, negotiate]
+
+/-- a different genesis is refused at EVERY announced version, on both sides, before anything else is looked at -/
+theorem genesis_mismatch_at_every_version (g : Bytes) (v : Nat) (nonces : List Nat) (d1 d2 : Bool) (h : Hand) (s : Shake)
+    (hh : h.genesis ≠ g) (hs : s.genesis ≠ g) :
+    acceptDecision g v nonces d1 h = .error .genesisMismatch ∧ initiateDecision g v d2 s = .error .genesisMismatch := by
+  simp [acceptDecision, initiateDecision, hh, hs]
+
+/-- the extremes: a peer announcing version 0 is served at 0, one announcing 2^32 - 1 at OUR version -/
+theorem version_extremes (g : Bytes) (v : Nat) (hv : v ≤ 2^32 - 1) (h : Hand) (hg : h.genesis = g) :
+    (h.version = 0 → acceptDecision g v [] false h = .ok 0) ∧
+    (h.version = 2^32 - 1 → acceptDecision g v [] false h = .ok v) := by
+  constructor <;> intro hh <;> simp [acceptDecision, negotiate, hg, hh] <;> omega
+
 /-- the nonce just generated by `next_nonce` is in the ring (the ring drops only its oldest entry),
 so the `Hand` we send is recognised if it comes back to us -/
 theorem own_nonce_detected (ring : List Nat) (n : Nat) : n ∈ pushNonce ring n := by
